@@ -287,7 +287,11 @@ class Rewriter(ast.NodeTransformer):
                 assigned.append(nm)
         if kind == "for":
             assigned = _assigned_names([ast.Expr(value=node.target)]) + assigned
+        stored_attrs = sorted({n.attr for s in node.body + node.orelse for n in ast.walk(s)
+                               if isinstance(n, ast.Attribute) and isinstance(n.ctx, (ast.Store, ast.Del))
+                               and isinstance(n.value, ast.Name) and n.value.id == (self.self_name or "self")})
         self.info.loops.append({"index": k, "lineno": node.lineno, "kind": kind, "assigned": assigned,
+                                "stored_attrs": stored_attrs,
                                 "head": ast.unparse(node.test if kind == "while" else node.iter)[:100]})
         self.loop_stack.append(k)
         body = _flatten([self.visit(s) for s in node.body])
